@@ -383,6 +383,10 @@ PROPS = {
                                   note='modify_order with the unconditional grid clause (expected refutation, known finding)')], 'design': '§5 C12'},
     'C13': {'legs': [V('book'), V('market'), V('env'), V('menv'), V('hist')], 'design': '§5 C13'},
     'C14': {'legs': [V('market'), V('menv')], 'design': '§5 C14'},
+    # C15: what a contract can say - the processing order IS the library shuffle of the queue under the supplied generator, once, never reordered - + a statistical stand-in
+    'C15': {'legs': [V('env', tags=['C15']), V('menv', tags=['C15']),
+                     R('shuffle_statistics', ['shuffle-stats', '--steps', '200000'], 'Env and MarketEnv<2,3>, mixed instruction kinds (placements and cancellations of resting orders, two assets): for batch sizes 2, 3, 4 all n! processing orders counted over 200000 seeded steps each, for batch size 8 the 8x8 position-by-item table and the 28 pairwise orders over 200000 seeded steps; every cell within the Bernstein bound for an unbiased shuffle (union bound over all 304 cells, false-alarm probability < 1e-9); deterministic (step k uses the generator seeded with base + k)')],
+            'design': '§5 C15'},
     'C16': {'legs': [V('agents')], 'design': '§5 C16'},
     'C17': {'legs': [V('agents')], 'design': '§5 C17'},
     'C18': {'legs': [V('py'), V('book'),
@@ -933,11 +937,11 @@ MARKET_SEARCH_PROPS = {'C12', 'C13', 'C14'}
 def witness_search(pid, new, tier, seed, replay_path):
     """After a Verus refutation: look for a concrete failing history on the real code (never changes the verdict).
     Book-level histories for obligations of the book / market units, environment-level histories for the env units."""
-    if pid == 'C09':
+    if pid in ('C09', 'C15'):
         b = build_replay()
         if not b:
             return None
-        cmd = [b, 'determinism', '--seed', str(seed)]
+        cmd = [b, 'determinism', '--seed', str(seed)] if pid == 'C09' else [b, 'shuffle-stats', '--seed', str(seed), '--steps', '200000']
         p = subprocess.run(cmd, capture_output=True, text=True)
         if p.returncode == 1:
             try:
@@ -947,7 +951,7 @@ def witness_search(pid, new, tier, seed, replay_path):
             doc = json.load(open(replay_path))
             doc['witness'] = w
             doc['witness_cmd'] = ' '.join(cmd)
-            doc['note'] += '; witness = complete simulations through the real runners whose digests disagree between runs / processes / progress-bar branches'
+            doc['note'] += ('; witness = complete simulations through the real runners whose digests disagree between runs / processes / progress-bar branches' if pid == 'C09' else '; witness = the distribution of processing orders over seeded steps of the real environment leaves the concentration bound of an unbiased shuffle')
             json.dump(doc, open(replay_path, 'w'), indent=1)
             return w
         return None
